@@ -250,8 +250,9 @@ func (x *Exec) contractCall(fr *Frame, st *State, site ssa.Instruction, callee *
 		x.assume(Term{app(">=", na, st.Alloc), "Bool"})
 		st.Alloc = na
 		x.markAlloc()
-		// heaps may differ at references allocated by the callee
-		x.havocFresh(st, pre)
+		// Cells at references the callee allocated are not constrained by anything the
+		// caller knew before the call (every reference the caller can dereference was
+		// at most the old watermark), so heaps need no havoc beyond the modifies clause.
 	}
 	// results
 	res := x.freshResult(fr, st, callee.Name()+"!r", rt)
